@@ -215,11 +215,31 @@ Definition mask_umodes (t : tstate) : tstate :=
      ts_chans := ts_chans t; ts_member := ts_member t |}.
 
 (* ---------- the property predicates ---------- *)
-(* first sentence, at one marker: the state the implementation showed equals the network's view *)
-Definition C13_ok (view : tstate) (shown : tstate) : bool :=
-  bool_decide (mask_umodes shown = mask_umodes view).
+(* "exactly the channels the client is on, exactly the users sharing them", said against the
+   TRUTH of the network (not its view): key sets of the shown state vs memberships of the truth *)
+Definition exact_dom (nt : net) (shown : tstate) : bool :=
+  let me := n_me nt in
+  let mem := n_member nt in
+  bool_decide (ts_me shown = me)
+  && bool_decide (map_Forall (fun c (_ : chanattr) => is_Some (mem !! (c, me))) (ts_chans shown))
+  && bool_decide (map_Forall (fun (k : name * name) (_ : privs) =>
+                                is_Some (mem !! (fst k, me)) /\ is_Some (mem !! k)) (ts_member shown))
+  && bool_decide (map_Forall (fun n (_ : nickattr) => n = me \/ shares nt n = true) (ts_nicks shown))
+  && bool_decide (is_Some (ts_nicks shown !! me))
+  && bool_decide (map_Forall (fun (k : name * name) (_ : privs) =>
+                                is_Some (mem !! (fst k, me)) ->
+                                is_Some (ts_chans shown !! fst k) /\ is_Some (ts_member shown !! k)
+                                /\ is_Some (ts_nicks shown !! snd k)) mem).
+
+(* first sentence, at one marker: the state the implementation showed has exactly the truth's
+   key sets and equals the network's view (privileges / user@host / topics / modes as revealed) *)
+Definition C13_ok (nt : net) (shown : tstate) : bool :=
+  exact_dom nt shown && bool_decide (mask_umodes shown = mask_umodes (n_view nt)).
 (* second sentence, at one marker *)
 Definition C13_rob_ok (shown : tstate) : bool := rob_ok shown.
+
+(* the tracker after the lines a conformant server sent (as the parser delivers them: C01) *)
+Definition feed (t : tstate) (ms : list LineSend.msg) : tstate := run_lines t (map LineSend.expected ms).
 
 (* ---------- running a case ---------- *)
 Definition attr_of (ui : uinfo) : nickattr := Build_nickattr (ui_user ui) (ui_host ui) (ui_real ui) no_nickmode.
@@ -276,7 +296,7 @@ Fixpoint judge (sim : bool) (nt : net) (ok : bool) (its : list item) (o : list b
           | Some (td, d, o2) =>
               bool_decide (tq = t_Q) && bool_decide (td = t_D)
               && match undump d with
-                 | Some shown => (if sim then negb ok || C13_ok (n_view nt) shown else true)
+                 | Some shown => (if sim then negb ok || C13_ok nt shown else true)
                                  && C13_rob_ok shown
                  | None => false
                  end
